@@ -5,11 +5,15 @@ def lrc_precheck(ctx):
     """encoder validation: concrete token strings through the real lexer+parser and through the chart"""
     from smartquery import SqParser
     from sqv import lrc_checks
-    cx = lrc_checks.Ctx(SqParser(), 5, "full", timeout=60)
-    v = lrc_checks.validate(cx, n=160 if ctx["tier"] == "quick" else 1200, seed=ctx["seed"])
+    try:
+        cx = lrc_checks.Ctx(SqParser(), 5, "full", timeout=60)
+        v = lrc_checks.validate(cx, n=160 if ctx["tier"] == "quick" else 1200, seed=ctx["seed"])
+    except Exception as e:
+        msg = "LRC encoder cannot cover this grammar (e.g. a terminal it has no sample text for): %r" % (e,)
+        return {"encoder_validation": "failed: %r" % (e,), "abort_by_harness": {"lrc_checks": msg}}
     out = {"encoder_validation": v, "tables": cx.T.summary()}
     if v["n_disagreements"]:
-        out["abort"] = v["disagreements"]
+        out["abort_by_harness"] = {"lrc_checks": v["disagreements"]}
     return out
 
 
@@ -21,10 +25,10 @@ def lxc_precheck(ctx):
         cx = lxc_checks.Ctx(SqParser(), 6, None, timeout=60)
         v = lxc_checks.validate(cx, n=200 if ctx["tier"] == "quick" else 800, seed=ctx["seed"])
     except Exception as e:
-        return {"lxc_encoder_validation": "failed: %r" % (e,), "abort": "LXC encoder cannot cover this lexer: %r" % (e,)}
+        return {"lxc_encoder_validation": "failed: %r" % (e,), "abort_by_harness": {"lxc_checks": "LXC encoder cannot cover this lexer: %r" % (e,)}}
     out = {"lxc_encoder_validation": v, "master_regex_rules": [r[0] for r in cx.lx.rules]}
     if v["n_disagreements"]:
-        out["abort"] = v["disagreements"]
+        out["abort_by_harness"] = {"lxc_checks": v["disagreements"]}
     return out
 
 
@@ -32,9 +36,11 @@ def both_prechecks(ctx):
     a = lrc_precheck(ctx)
     b = lxc_precheck(ctx)
     out = dict(a)
-    out.update({k: v for k, v in b.items() if k != "abort"})
-    if a.get("abort") or b.get("abort"):
-        out["abort"] = a.get("abort") or b.get("abort")
+    out.update({k: v for k, v in b.items() if k != "abort_by_harness"})
+    ab = dict(a.get("abort_by_harness") or {})
+    ab.update(b.get("abort_by_harness") or {})
+    if ab:
+        out["abort_by_harness"] = ab
     return out
 
 
